@@ -6,6 +6,25 @@ import os
 # with fixes/C12-F1.diff applied as well, "false false" expects the tree before ed62adc.
 _FX = os.environ.get("VERIF_C12_FX", "false true")
 
+def _generated_samples():
+    """two generated, non-trivial cases for the evidence (runner's `samples` shows corpus cases, which come first)"""
+    import json
+    import vf
+    path = os.path.join(vf.OUT, "C12", "obs_translate.jsonl")
+    out = []
+    try:
+        with open(path) as f:
+            for line in f:
+                o = json.loads(line)
+                if o.get("stream") == "generated" and o.get("nontrivial"):
+                    out.append({"in": o["in"], "obs": {k: o["obs"][k] for k in ("decision", "proxy", "envoy", "oracle")}})
+                    if len(out) == 2:
+                        break
+    except (OSError, ValueError, KeyError):
+        pass
+    return {"generated_samples": out}
+
+
 P = {
     "id": "C12",
     "coq_targets": ["Properties/C12.vo", "Run/Eval_C12.vo"],
@@ -34,7 +53,7 @@ P = {
             "PUT/DELETE/PATCH/PROPFIND, 8 paths, 4 peers incl. loopback, 0-2 extra headers, request context live / cancelled before / cancelled while "
             "the pipeline runs / deadline exceeded (22 %, then mostly with context.Canceled / DeadlineExceeded / *url.Error in the chain), "
             "no / one / two Accept lines: wildcards, q-values, "
-            "malformed, nothing acceptable) x error tree of depth <= 6, fan-out <= 4 built from real values (8 heimdall sentinels, other "
+            "malformed, nothing acceptable) x error tree of depth <= 6 before up to two wrapping levels (context cause, file precondition case), fan-out <= 4, built from real values (8 heimdall sentinels, other "
             "sentinels, *RedirectError incl. odd codes, a real *cellib.EvalError, 12 foreign leaf flavours incl. context.Canceled / "
             "DeadlineExceeded, io.EOF, syscall.ENOENT, *url.Error, *net.OpError, a type with HTTPStatus()/Timeout()/own Is, a struct with "
             "Code/StatusCode fields; fmt.Errorf %w / custom Unwrap, errors.Join / multi-%w / custom Unwrap() []error, errorchain.ErrorChain with "
@@ -86,15 +105,19 @@ P = {
                 "the recovery middleware is observed as a panic of Handler.ServeHTTP (a real server drops the connection)",
                 "harness/c12/rules_export.go builds the ruleImpl / compositeErrorHandler / conditionalErrorHandler values the way "
                 "rule_factory_impl.go createOnErrorPipeline does (the factory itself is C01/C14/C19 material)"],
-    "level_text": "Proof (kernel-checked, no axioms) against a specification that uses no model function (C12/Spec.v): for error values of "
+    "level_text": "Proof (kernel-checked, no axioms) against a specification that uses no function of the model except the range test "
+                  "valid_code (100..999) and equality of media types (C12/Spec.v): for error values of "
                   "arbitrary shape and nesting, all override codes, verbose on/off, every Accept view, every list of conditional default / "
                   "redirect / www_authenticate error handlers with rule-level configuration, panics, the proxy's own Finalize failures and "
                   "both configuration sources, every answer of the decision service, the proxy service and the Envoy gRPC service is the "
                   "response of the failure's kind by the precedence authentication > authorization > communication/timeout > precondition "
-                  "> no rule > redirect > internal (401/403/502/400/404/redirect code + Location/500 or the kind's override), identical on "
-                  "the three entry points, never a 1xx/2xx status or gRPC OK when no override/redirect code is one, with details only when "
-                  "verbose, in a type the Accept header admits, and (with the repair of C12-F1) a WWW-Authenticate header naming the "
-                  "configured realm — outside the guards of C12-F1/F2/F5, and INSIDE them every clause but the one the finding breaks "
+                  "> no rule > redirect > internal (401/403/502/400/404/redirect code + Location/500 or the kind's override), with the same "
+                  "status and Location on the three entry points whenever each of them produces an HTTP-level answer (a panic is answered "
+                  "with 500 / the status of the panic value's kind by the HTTP services and with a gRPC status error Internal by the Envoy "
+                  "service; WWW-Authenticate, Content-Type and body presence are not part of 'identical'), never a 1xx/2xx status or gRPC OK when no override/redirect code is one, with details only when "
+                  "verbose, in a type the Accept header admits, and — only for the model variant with the candidate repair of C12-F1; for "
+                  "/repo as it is this clause is refuted (C12_F1_refuted), not proved — a WWW-Authenticate header naming the "
+                  "configured realm; all this outside the guards of C12-F1/F2/F5, and INSIDE them every clause but the one the finding breaks "
                   "(C12_entry_points_inside_guards); the evaluator of the correspondence run is proved sound for these theorems "
                   "(C12_eval_sound). The model is tied to the code by running errors.Is/As, both real translators and the three complete "
                   "real service stacks around a real rule with real error handler mechanisms on ~1500 (quick) / 20000 (thorough) generated "
@@ -107,12 +130,20 @@ P = {
                   "C12-F1 (www_authenticate answers carry no WWW-Authenticate header; candidate repair fixes/C12-F1.diff, the model is "
                   "parametric in it and VERIF_C12_FX='true true' runs the check against a repaired tree), C12-F2 (overrides outside 100..999 "
                   "split HTTP and gRPC; expected behaviour defined: such an override is ignored, so a repair shows as 'finding not "
-                  "reproduced'), C12-F5 (hand-built RedirectError values with such codes, unreachable from heimdall's mechanisms). Fixed: "
+                  "reproduced'), C12-F5 (latent: hand-built RedirectError values with such codes, unreachable from heimdall's mechanisms). The fx1 = true "
+                  "variant of the model was compared with a tree carrying fixes/C12-F1.diff once by the builder (scratch tree at 8647e06) and "
+                  "is not exercised by the delivered runs, which run `check (mkfx false true)`. Fixed: "
                   "C12-F4 (ed62adc, precondition_error override from a configuration file; pinned behaviour kept as "
                   "C12_F4_pinned_refuted). C12-F3 (different media type preference orders of the two translators, gRPC text/html "
-                  "fallback) is not a finding: reported in the input histogram only. Not covered: http.Server-level behaviour (HEAD body "
+                  "fallback and, as a consequence, different body presence under verbose responses when the HTTP negotiation fails: about "
+                  "11 % of the cases, tag note:body-presence-differs-http-vs-grpc) is not a finding and neither is counted against "
+                  "'identically': reported in the input histogram only. A rule-level `{realm: \"\"}` makes 'naming the configured realm' "
+                  "vacuous (every challenge contains the empty string). The state of the request context (cancelled / deadline exceeded) is "
+                  "varied for both translators and the two HTTP stacks; the Envoy stack is always driven with a live context (a cancelled "
+                  "gRPC call returns nothing to observe). Not covered: http.Server-level behaviour (HEAD body "
                   "stripping, informational responses), message texts and body contents beyond emptiness / well-formedness / detail tokens, "
                   "conditions that themselves fail, typed-nil and empty-chain error values.",
+    "extra_coverage": _generated_samples,
     "assumptions": ["status codes fit in int32 (envoy's StatusCode); 1xx overrides are observed on httptest.ResponseRecorder (a real "
                     "net/http server would send them as informational responses followed by an implicit 200, which is why the "
                     "never-success hypothesis excludes 100..299, not only 2xx)",
